@@ -152,6 +152,19 @@ def _first_difference(a, b):
 # --------------------------------------------------------------------------------------------------------------------
 # adapters: model -> library object, library object -> model
 
+def _other_key(algorithm, key):
+    """A second, different key of the same algorithm and size class, derived from the first (None if none is at hand)."""
+    fmt = ref.KEY_FORMAT[algorithm]
+    if fmt == 'rsa':
+        return {'e': key['e'], 'n': key['n'] + 2} if key['n'] > 16 else None
+    if fmt == 'dsa':
+        return dict(key, y=key['y'] + 1) if key['y'] + 1 < key['p'] else None
+    if fmt == 'eddsa':
+        raw = bytes(key['raw'])
+        return {'raw': bytes([raw[0] ^ 0x55]) + raw[1:]} if raw else None
+    return None          # EC points: another point on the curve is not derived here
+
+
 def _build_key(algorithm, key):
     L = lib()
     keys = L.keys
@@ -312,6 +325,19 @@ def _check_dnskey(case):
     )
     judge.compose(obj, rdata, brief)
     _check_keytag(judge, obj, algorithm, key.get('n'), 'constructed')
+    # key rollover on the same record object, after it has been composed and its tag has been read: the RDATA and
+    # the tag are those of the new key
+    other = _other_key(algorithm, key)
+    if other is not None and not judge.findings:
+        try:
+            obj.key = _build_key(algorithm, other)
+        except Exception:  # pylint: disable=broad-except
+            other = None
+        if other is not None:
+            judge.compose(obj, ref.encode_dnskey(flags, 3, algorithm, other),
+                          {'flags': flags, 'algorithm': algorithm, 'key': _brief(other), 'history': 'composed, key replaced, composed'})
+            _check_keytag(judge, obj, algorithm, other.get('n'), 'constructed')
+        obj.key = _build_key(algorithm, key)
     parsed = judge.parse(record.DnsRecordDnskey, rdata, brief)
     if parsed is not None:
         want_key = {name: value for name, value in key.items() if name != 't'}
